@@ -399,7 +399,11 @@ package fit
 //@@ writers only append to the encoder's output
 //@ func (e *encoder) writeField(value reflect.Value, f *field) (err error)
 //@   props C05 C06 C07
-//@   locals i byte, max byte
+//@   locals i byte, max byte, callarg0 types.Base, callarg1 interface{}, res_Invalid_1 interface{}
+//@@ C05 "arrays padded with invalid": what the padding loop hands to encodeValue is the invalid value of the field's
+//@@ own base type (the bytes binary.Write makes of it are outside the output model; which value it is, is not)
+//@   callsite Invalid [of-field-base] callarg0 == fbase(f.t)
+//@   callsite encodeValue [pad-invalid] i >= max ==> callarg1 == res_Invalid_1
 //@   requires e.w != nil && (isLE(e.arch) || isBE(e.arch)) && f != nil && rvvalid(value) && byte(f.t)&0x1F <= 16
 //@   requires [array] farray(f.t) ==> fkind(f.t) == 0 && rvcls(value) == 5
 //@   requires [kinds] !farray(f.t) ==> (fkind(f.t) == 1 || fkind(f.t) == 2 ==> typeis[time.Time](ifaceOf(value))) && (fkind(f.t) == 3 ==> typeis[Latitude](ifaceOf(value))) && (fkind(f.t) == 4 ==> typeis[Longitude](ifaceOf(value)))
